@@ -256,9 +256,20 @@ constraint:
 // add `CREATE INDEX` statement to a table
 // Does not check for duplicate indexes.
 func (st *Schema) addCreateIndex(ci sql.CreateIndexStmt) {
+	cols := st.toIndexColumns(ci.IndexedColumns)
+	for i, c := range cols {
+		if c.Column != "" && st.column(c.Column) == nil {
+			// SQLite only makes an index on columns which exist. What looks
+			// like a column here is a string in double quotes (`"nosuch"`),
+			// which SQLite takes for a string constant when there is no such
+			// column: an expression.
+			cols[i].Expression = "'" + c.Column + "'"
+			cols[i].Column = ""
+		}
+	}
 	st.Indexes = append(st.Indexes, SchemaIndex{
 		Index:   ci.Index,
-		Columns: st.toIndexColumns(ci.IndexedColumns),
+		Columns: cols,
 	})
 }
 
